@@ -63,6 +63,7 @@ type BarSpec struct {
 	Pre        []DecSpec `json:"pre,omitempty"`
 	App        []DecSpec `json:"app,omitempty"`
 	NoSpy      bool      `json:"no_spy,omitempty"`
+	OptVariant     int   `json:"opt_variant,omitempty"`      // != 0: options go through the BarOptional/BarOptOn/BarFuncOpt* wrappers, with disabled decoys and nil options in between
 	FillOnComplete bool  `json:"fill_on_complete,omitempty"` // BarFillerOnComplete(FillMsg(...))
 	FillOnAbort    bool  `json:"fill_on_abort,omitempty"`    // BarFillerOnAbort(FillMsg(...))
 }
@@ -80,6 +81,7 @@ const (
 	DecName
 	DecTotal
 	DecCurrent
+	DecNil // no decorator at all: a nil entry, or a conditional constructor whose condition is false
 )
 
 // Wrapper kinds.
@@ -106,6 +108,7 @@ type DecSpec struct {
 	Fmt      string `json:"fmt,omitempty"`
 	Age      int    `json:"age,omitempty"`
 	Mark     bool   `json:"mark,omitempty"` // wrap the output in {tag=...} so that it can be found in the row
+	Cond     int    `json:"cond,omitempty"`     // 1..4: built through OnCondition / OnPredicate / Conditional / Predicative (selecting this decorator)
 	PreInit  bool   `json:"pre_init,omitempty"` // the WC passed to the constructor is a copy of one shared, already initialised style value
 }
 
